@@ -459,8 +459,10 @@ theorem W_handleChallenge (src n cd es) :
   | some call0 =>
     refine Ho.pre (W_hand (Pt := XH c pre call0.pkt call0.retries) (call := call0) (fun os1 harm => ?_))
       (fun st hp => ⟨⟨hp.1.1, hp.1.2 _ rfl⟩, hp.2.1, hp.2.2 _ rfl⟩)
-    refine Ho.ite (fun _ => ?_) (fun _ => Ho.ite (fun _ => ?_) (fun _ => ?_))
+    refine Ho.ite (fun _ => ?_) (fun _ => Ho.ite (fun _ => ?_) (fun _ => Ho.ite (fun _ => ?_) (fun _ => ?_)))
     · exact Ho.pre (Ho.bind (W_activeInsert call0 harm) (fun _ => Ho.pureI _)) (fun _ h => h.2)
+    · refine Ho.pre (P' := W c s0 os1) ?_ (fun _ h => h.2)
+      ho_walk
     · refine Ho.pre (P' := W c s0 os1) ?_ (fun _ h => h.2)
       ho_walk
     · refine Ho.pre (P' := fun st => 1 ≤ call0.retries ∧ TW c pre s0 os1 st) ?_
